@@ -187,8 +187,18 @@ def c01(ctx):
             directed.append((tag, schema))
             directed.append((tag, {"items": schema}))
             directed.append((tag, {"additionalProperties": schema}))
-    for _ in range(ctx.n(3000) + len(directed)):
-        if directed:
+    pairs = []
+    for tags, schema, insts in C07_DIRECTED:
+        for tag in tags:
+            for _k in range(8):
+                a, b = ctx.r.choice(insts), ctx.r.choice(insts)
+                pairs.append((tag, {"items": schema}, [a, b]))
+                pairs.append((tag, {"additionalProperties": schema}, {"x": a, "y": b}))
+    for _ in range(ctx.n(3000) + len(directed) + len(pairs)):
+        forced = None
+        if pairs:
+            tag, schema, forced = pairs.pop()
+        elif directed:
             tag, schema = directed.pop()
         else:
             tag, schema, store, wdocs, info = gen_case(ctx, refs=False, depth=ctx.r.choice([1, 2, 2, 3]))
@@ -198,7 +208,7 @@ def c01(ctx):
                 continue
         except Exception:        # noqa: BLE001
             continue
-        insts = [ctx.g.instance_for(tag, schema) for _k in range(3)]
+        insts = [ctx.g.instance_for(tag, schema) for _k in range(3)] if forced is None else [forced]
         # one more: an earlier instance with one number re-typed (3.0 <-> 3.5, 1 <-> true <-> 1.0), or
         # several of them side by side in one array, so that one validation meets both
         x = ctx.g.retype(ctx.r.choice(insts))
@@ -345,6 +355,120 @@ def c03(ctx):
                         res.distribution["outside-domain:reference-target-not-a-schema"] += 1
                         continue
                     res.disagree("VAL", case, verdict_of(m), verdict_of(i), corr.diff(verdict_of(m), verdict_of(i)))
+
+
+class Deadline(Exception):
+    pass
+
+
+def with_deadline(seconds, fn):
+    """fn() under a wall-clock limit; raises Deadline when it does not finish (main thread only)"""
+    import signal
+
+    def on_alarm(signum, frame):
+        raise Deadline()
+    old = signal.signal(signal.SIGALRM, on_alarm)
+    signal.setitimer(signal.ITIMER_REAL, seconds)
+    try:
+        return fn()
+    finally:
+        signal.setitimer(signal.ITIMER_REAL, 0)
+        signal.signal(signal.SIGALRM, old)
+
+
+def deep(kind, depth, leaf):
+    x = leaf
+    for k in range(depth):
+        x = {"a": x, "b": k} if kind == "obj" else ([x, k] if kind == "arr" else ({"k": [x]} if k % 2 else [{"k": x}]))
+    return x
+
+
+def c03_termination(ctx):
+    """every validation FINISHES: values nested 30-60 levels deep (well inside the interpreter's
+    recursion limit) compared by const / enum / uniqueItems, and validated by schemas nested as deep,
+    under a wall-clock limit that is thousands of times what the unchanged code needs; and a validator
+    that has raised the documented RefResolutionError once stays usable (only documented exceptions
+    afterwards)"""
+    res = ctx.res
+    r = ctx.r
+    limit = 6.0
+    for kind in ("obj", "arr", "mixed"):
+        for depth in (30, 45, 60):
+            x = deep(kind, depth, r.choice([1, "s", None]))
+            y = copy.deepcopy(x)
+            cases = [({"enum": [y]}, x), ({"uniqueItems": True}, [x, y]), ({"enum": [0, [y], y]}, x), ({"uniqueItems": True}, [[x], 1, [y]])]
+            for tag in DRAFT_TAGS:
+                cls = impl.DRAFTS[tag]
+                cs = cases + ([({"const": y}, x), ({"contains": {"const": y}}, [1, x])] if tag in ("d6", "d7") else [])
+                for schema, inst in cs:
+                    for ep in ("is_valid", "iter_errors"):
+                        res.evaluations += 1
+                        try:
+                            v = cls(schema)
+                            with_deadline(limit, (lambda: v.is_valid(inst)) if ep == "is_valid" else (lambda: list(v.iter_errors(inst))))
+                        except Deadline:
+                            res.fail("hang:%s:%s" % (sorted(schema)[0], kind), "%s did not finish within %.0f s on a value nested %d deep" % (ep, limit, depth),
+                                     {"cls": tag, "schema_keyword": sorted(schema)[0], "kind": kind, "depth": depth, "entry": ep})
+                            return
+                        except Exception as exc:        # noqa: BLE001
+                            res.fail("crash:%s:%s" % (type(exc).__name__, crash_site(exc)), "%s raised on a value nested %d deep" % (ep, depth),
+                                     {"cls": tag, "schema_keyword": sorted(schema)[0], "kind": kind, "depth": depth, "entry": ep})
+    # schemas nested deep
+    for tag in DRAFT_TAGS:
+        cls = impl.DRAFTS[tag]
+        s = {"type": "integer"}
+        for k in range(40):
+            s = {"properties": {"a": s}} if k % 3 == 0 else ({"items": s} if k % 3 == 1 else ({"allOf": [s, {}]} if tag != "d3" else {"extends": [s, {}]}))
+        inst = "leaf"
+        for k in range(40):
+            inst = {"a": inst} if k % 3 == 0 else ([inst, inst] if k % 3 == 1 else inst)
+        try:
+            with_deadline(limit, lambda: list(cls(s).iter_errors(inst)))
+        except Deadline:
+            res.fail("hang:nested-schema", "iter_errors did not finish on a schema nested 40 deep", {"cls": tag})
+        except Exception as exc:        # noqa: BLE001
+            res.fail("crash:%s:%s" % (type(exc).__name__, crash_site(exc)), "nested schema", {"cls": tag})
+    # a validator stays usable after a documented RefResolutionError
+    idk = {"d3": "id", "d4": "id", "d6": "$id", "d7": "$id"}
+    for tag in DRAFT_TAGS:
+        cls = impl.DRAFTS[tag]
+        schema = {"properties": {"dangling": {"$ref": "#/definitions/nope"}, "remote": {"$ref": "http://nowhere.invalid/x.json"},
+                                 "with_id": {idk[tag]: "http://ex.org/sub/", "type": "integer"}, "with_ref": {"$ref": "#/definitions/ok"},
+                                 "plain": {"type": "string"}},
+                  "definitions": {"ok": {"type": "integer"}}}
+        for first in ({"dangling": 1}, {"remote": 1}):
+            for ep in ("is_valid", "iter_errors", "validate"):
+                world = impl.World({})
+                rv = V.RefResolver.from_schema(schema, id_of=cls.ID_OF)
+                rv.handlers = impl._AnyScheme(world.fetch)
+                v = cls(schema, resolver=rv)
+                seq = [first, {"with_id": "s"}, {"with_ref": 1}, {"plain": 3}, first, {"with_ref": "s", "with_id": 2}]
+                for n, inst in enumerate(seq):
+                    res.evaluations += 1
+                    try:
+                        if ep == "is_valid":
+                            v.is_valid(inst)
+                        elif ep == "iter_errors":
+                            list(v.iter_errors(inst))
+                        else:
+                            v.validate(inst)
+                        got = None
+                    except E.ValidationError:
+                        got = None
+                    except Exception as exc:        # noqa: BLE001
+                        got = exc
+                    want_ref_error = inst is first or "dangling" in inst or "remote" in inst
+                    name = type(got).__name__ if got is not None else None
+                    if (name not in (None, "RefResolutionError")) or (name == "RefResolutionError" and not want_ref_error):
+                        res.fail("crash-after-RefResolutionError:%s" % name,
+                                 "after a documented RefResolutionError the same validator raised %s on an unrelated instance" % name,
+                                 {"cls": tag, "schema": schema, "seq": seq, "at": n, "entry": ep})
+                        break
+
+
+def c03_all(ctx):
+    c03_termination(ctx)
+    c03(ctx)
 
 
 def refs_are_strings(s):
@@ -810,6 +934,8 @@ def c06(ctx):
                         before = impl.err_json(e)
                         try:
                             str(e), repr(e), e.json_path, list(e.absolute_path), list(e.absolute_schema_path), str(top)
+                            E.best_match(iter(errs)), E.best_match(iter([top])), E.ErrorTree(errs).total_errors
+                            sorted(errs, key=E.relevance)
                         except Exception as exc:        # noqa: BLE001
                             bad = "rendering-raises:" + type(exc).__name__
                         if not bad and corr.diff(before, impl.err_json(e)):
@@ -1012,10 +1138,10 @@ def c07(ctx):
 
 C07_DIRECTED = [
     # (drafts, schema, instances): what a cache keyed by the instance's class, hash or `==` confuses
-    (("d6", "d7"), {"type": "integer"}, [3.0, 3.5, 4.0, 2.5, 7, 7.0, 7.25, True, 1]),
+    (("d3", "d4", "d6", "d7"), {"type": "integer"}, [3.0, 3.5, 4.0, 2.5, 7, 7.0, 7.25, True, 1, 1.0, 2 ** 53, float(2 ** 53), 0, 0.0]),
     (("d3", "d4", "d6", "d7"), {"properties": {"count": {"type": "integer"}, "ratio": {"type": "number"}}},
      [{"count": 3.0, "ratio": 0.5}, {"count": 3.5}, {"count": 2.5}, {"count": 4.0}, {"count": True}, {"count": 1}]),
-    (("d6", "d7"), {"items": {"type": "integer"}}, [[1.0, 1.5], [1.5, 1.0], [2.0], [2.5], [True], [1]]),
+    (("d3", "d4", "d6", "d7"), {"items": {"type": "integer"}}, [[1.0, 1.5], [1.5, 1.0], [2.0], [2.5], [True], [1], [1, 1.0], [1.0, 1], [7, 7.0, 7]]),
     (("d6", "d7"), {"const": 1}, [1, True, 1.0, True, 1]),
     (("d3", "d4", "d6", "d7"), {"enum": [0, "a"]}, [0, False, 0.0, False, 0]),
     (("d3", "d4", "d6", "d7"), {"enum": [True]}, [True, 1, 1.0, True]),
@@ -1097,6 +1223,10 @@ def c08(ctx):
         a = ctx.g.value(ctx.r.choice([0, 1, 2, 3]))
         b = ctx.g.twist(a) if ctx.r.random() < 0.8 else ctx.g.value(2)
         arr = [ctx.g.value(ctx.r.choice([0, 1, 2])) for _ in range(ctx.r.randrange(0, 5))]
+        if ctx.r.random() < 0.12:
+            # long arrays with containers among the elements (a size-dependent shortcut shows only there)
+            arr = [ctx.r.choice([k, float(k) + 0.5, "s%d" % k, [k], {"k": k}, [[k]], None if k == 0 else -k]) for k in range(ctx.r.randrange(17, 45))]
+            ctx.r.shuffle(arr)
         if arr and ctx.r.random() < 0.7:
             x = ctx.r.choice(arr)
             arr.insert(ctx.r.randrange(len(arr) + 1), ctx.g.twist(x) if ctx.r.random() < 0.7 else copy.deepcopy(x))
@@ -1162,6 +1292,8 @@ def c09(ctx):
     from fractions import Fraction
     for _ in range(ctx.n(5000)):
         i = gen.finite(num_for(ctx))
+        if ctx.r.random() < 0.08:
+            i = ctx.r.choice([0, 1, 0.0, 1.0, -0.0])
         d = gen.finite(num_for(ctx))
         if ctx.r.random() < 0.3:
             d = gen.finite(tweak_num(ctx, i))
@@ -1193,9 +1325,38 @@ def c09(ctx):
                 checks += [({"maximum": d, "exclusiveMaximum": d2}, fi <= fd and fi < f2),
                            ({"minimum": d, "exclusiveMinimum": d2}, fd <= fi and f2 < fi),
                            ({"exclusiveMaximum": d, "minimum": d2, "maximum": d}, fi < fd and f2 <= fi)]
-            for schema, want in checks:
+            # the same bound decided the same way wherever the subschema stands and whatever the ROOT says:
+            # (a modifier at the root is no business of a nested subschema)
+            if ctx.r.random() < 0.3:
+                sch, want0 = ctx.r.choice(checks)
+                flags = ({"exclusiveMinimum": True, "exclusiveMaximum": True} if tag in ("d3", "d4") else {"exclusiveMinimum": d, "exclusiveMaximum": d})
+                flags = dict((k, v) for k, v in flags.items() if ctx.r.random() < 0.8)
+                wrap = ctx.r.choice(["properties", "items", "ref", "allOf"])
+                if wrap == "properties":
+                    checks.append((dict(flags, properties={"p": sch}), want0 and all_flags_ok(tag, flags, None)))
+                    nested_inst = {"p": i}
+                elif wrap == "items":
+                    nested_inst = [i]
+                    checks.append((dict(flags, items=sch), want0))
+                elif wrap == "ref":
+                    nested_inst = {"p": i}
+                    checks.append((dict(flags, properties={"p": {"$ref": "#/definitions/n"}}, definitions={"n": sch}), want0))
+                else:
+                    nested_inst = {"p": i}
+                    key = "extends" if tag == "d3" else "allOf"
+                    checks.append((dict(flags, properties={"p": {key: [sch]}}), want0))
+                checks[-1] = (checks[-1][0], want0, nested_inst)
+            for chk in checks:
+                schema, want = chk[0], chk[1]
+                inst_i = chk[2] if len(chk) > 2 else i
                 try:
-                    got = cls(schema).is_valid(i)
+                    if len(chk) == 2 and ctx.r.random() < 0.1:
+                        # one validator object asked about booleans (which numeric keywords ignore) first
+                        v = cls(schema)
+                        v.is_valid(True), v.is_valid(False), v.is_valid(i == 0)
+                        got = v.is_valid(inst_i)
+                    else:
+                        got = cls(schema).is_valid(inst_i)
                 except Exception as exc:       # noqa: BLE001
                     res.fail("numeric-raises:%s:%s" % (type(exc).__name__, crash_site(exc)), "%r on %r raised %s" % (schema, i, type(exc).__name__),
                              dict(case, schema=schema, cls=tag))
@@ -1222,6 +1383,12 @@ def c09(ctx):
                     if got != want:
                         res.fail("multipleOf-inexact:" + tag, "%s %r on %r is %r, exact arithmetic says %r" % (kw, d, i, got, want),
                                  dict(case, schema={kw: d}, cls=tag))
+
+
+def all_flags_ok(tag, flags, _):
+    """root-level modifiers without a bound of their own at the root constrain nothing there (drafts 3/4:
+    booleans without minimum/maximum; drafts 6/7: the instance at the root is an object or array)"""
+    return True
 
 
 def is_double(fr):
@@ -1424,9 +1591,40 @@ def foreign_names(a, b):
 # ---------------------------------------------------------------------------------------------
 # C11 check_schema = metaschema
 
+def c11_overflowing_literals(ctx):
+    """legal JSON number literals beyond the float range (`1e400`, `-1e999`) reach check_schema as
+    +-inf (what json.loads yields): outside A-json and outside the model, but check_schema still returns
+    or raises SchemaError and nothing else, and says what the metaschema validator says"""
+    res = ctx.res
+    texts = ['{"maxLength": 1e400}', '{"minItems": -1e999}', '{"properties": {"tags": {"items": {"minLength": 1e400}}}}',
+             '{"multipleOf": 1e400}', '{"minimum": 1e400, "maximum": -1e400}', '{"enum": [1e400]}', '{"maxProperties": 1e400}',
+             '{"items": [{"maxItems": 1e400}]}', '{"required": [1e400]}', '{"type": 1e400}', '1e400', '[1e400]',
+             '{"definitions": {"a": {"minProperties": 1e400}}}', '{"dependencies": {"a": {"maxLength": -1e400}}}', '{"divisibleBy": 1e400}']
+    for tag in DRAFT_TAGS:
+        cls = impl.DRAFTS[tag]
+        for text in texts:
+            cand = json.loads(text)
+            res.evaluations += 1
+            try:
+                want = "SchemaError" if next(cls(cls.META_SCHEMA).iter_errors(cand), None) is not None else "ok"
+            except Exception as exc:        # noqa: BLE001
+                want = "raised:" + type(exc).__name__
+            try:
+                cls.check_schema(cand)
+                got = "ok"
+            except E.SchemaError:
+                got = "SchemaError"
+            except Exception as exc:        # noqa: BLE001
+                got = "raised:" + type(exc).__name__
+            if got.startswith("raised") or got != want:
+                res.fail("check_schema-raises:%s" % got.split(":")[-1] if got.startswith("raised") else "check_schema-vs-metaschema",
+                         "check_schema(json.loads(%r)) gave %s, the metaschema validator %s" % (text, got, want), {"cls": tag, "text": text})
+
+
 def c11(ctx):
     res = ctx.res
     c11_histories(ctx)
+    c11_overflowing_literals(ctx)
     # each bundled metaschema is accepted by its own class
     for tag in DRAFT_TAGS:
         cls = impl.DRAFTS[tag]
@@ -1569,7 +1767,9 @@ def c14(ctx):
     res = ctx.res
     resolver = V.RefResolver("", {})
     bad_tokens = ["-", "-1", "01", "+1", " 1", "1 ", "1_0", "1.0", "١", "２", "0x1", "1e0", "", "00", "９",
-                  "1٠", "1２", "2५", "1𝟎", "1٢", "1%D9%A0"]
+                  "1٠", "1２", "2५", "1𝟎", "1٢", "1%D9%A0",
+                  # canonical decimals that no array can have: beyond every length, beyond what int() converts
+                  "30", "99999999999999999999", "1" * 4300, "1" * 4301, "1" + "0" * 4400, "9" * 5000]
     # a long array, so that tokens which int() would read as 10..29 stay in range
     long_doc = {"a": ["e%d" % k for k in range(30)], "b": [[k] for k in range(12)]}
     for tok in bad_tokens:
@@ -1622,7 +1822,7 @@ def c14(ctx):
                     continue
             elif isinstance(node, list):
                 bad = ctx.r.choice(bad_tokens + [str(len(node)), str(len(node) + 5), "a", "99999999999999999999"])
-                if bad.isascii() and bad.isdigit() and (bad == "0" or not bad.startswith("0")) and int(bad) < len(node):
+                if bad.isascii() and bad.isdigit() and (bad == "0" or not bad.startswith("0")) and len(bad) < 30 and int(bad) < len(node):
                     continue
             else:
                 bad = ctx.r.choice(["0", "a", "", "-1"])
@@ -1833,6 +2033,9 @@ C17_CORPUS = [
     ({"properties": {"'a'": _INT, "a": _INT, "\"a\"": _INT, "['a']": _INT}}, {"'a'": "s", "a": "s", "\"a\"": "s", "['a']": "s"}),
     ({"items": {"properties": {"0": _INT}}, "minItems": 5}, [{"0": "s"}, {"0": 1}, {"0": "t"}]),
     ({"properties": {"n": {"type": "null"}, "k": _INT}, "required": ["zz"], "minProperties": 9}, {"n": None, "k": "s", "e": None, "f": 0, "g": "", "h": [], "i": False}),
+    ({"dependencies": {"tags": {"minProperties": 7}}, "properties": {"k": _INT}}, {"tags": [1, 2], "k": "s"}),
+    ({"dependencies": {"billing": {"minProperties": 7}, "k": {"maxProperties": 0}}, "properties": {"k": _INT}}, {"billing": {"iban": "x", "n": None}, "k": "s"}),
+    ({"properties": {"o": {"dependencies": {"tags": {"maxProperties": 0}}, "properties": {"q": _INT}}}}, {"o": {"tags": [[1], {"a": 1}], "q": "s"}}),
 ]
 
 
@@ -1943,24 +2146,41 @@ def c17(ctx):
             d = corr.diff(m, iv)
             if d:
                 res.disagree("TREE", dict(case, order=[[list(e.path), e.validator] for e in perm]), m, iv, d)
-            # indexing an element that exists in the instance but has no errors gives an empty tree
-            if isinstance(inst, (dict, list)):
-                keys = list(inst) if isinstance(inst, dict) else list(range(len(inst)))
+            # indexing an element that exists in the instance but has no errors gives an empty tree — at
+            # the root and at every node below it (the tree is walked along the real instance)
+            t3 = E.ErrorTree(perm)
+            stack = [(t3, inst, [])]
+            reported = False
+            while stack and not reported:
+                node, sub, pre = stack.pop()
+                if not isinstance(sub, (dict, list)):
+                    continue
+                keys = list(sub) if isinstance(sub, dict) else list(range(len(sub)))
+                tried = 0
                 for k in keys:
-                    if ((), k) in prefixes:
+                    if (tuple(pre), k) in prefixes:
+                        try:
+                            stack.append((node[k], sub[k], pre + [k]))
+                        except Exception:        # noqa: BLE001  (reported by the walk monitor above)
+                            pass
                         continue
-                    t3 = E.ErrorTree(perm)
+                    if tried >= 2:
+                        continue
+                    tried += 1
                     try:
-                        sub = t3[k]
-                        if sub.total_errors != 0 or list(sub):
-                            res.fail("tree-errorfree-nonempty", "tree[%r] is not empty" % (k,), case)
+                        child = node[k]
+                        if child.total_errors != 0 or list(child):
+                            res.fail("tree-errorfree-nonempty", "tree%r[%r] is not empty" % (pre, k), case)
+                            reported = True
                     except Exception as exc:       # noqa: BLE001
-                        last_root = [e for e in perm if not e.path]
-                        why = "propertyNames" if last_root and "propertyNames" in list(last_root[-1].absolute_schema_path) else "other"
+                        here = [e for e in perm if list(e.path) == pre]
+                        why = "propertyNames" if here and "propertyNames" in list(here[-1].absolute_schema_path) else "other"
                         res.fail("tree-errorfree-raises:%s:%s" % (type(exc).__name__, why),
-                                 "tree[%r] raised %s although the element exists and has no errors" % (k, type(exc).__name__),
-                                 dict(case, order=[[list(e.path), e.validator] for e in perm]))
-                    break
+                                 "tree%r[%r] raised %s although the element exists and has no errors" % (pre, k, type(exc).__name__),
+                                 dict(case, order=[[list(e.path), e.validator] for e in perm], at=pre))
+                        reported = True
+                    if reported:
+                        break
 
 
 # ---------------------------------------------------------------------------------------------
@@ -2117,6 +2337,24 @@ def c20_registrations(ctx):
                     mid = impl.DRAFTS[t].ID_OF(impl.DRAFTS[t].META_SCHEMA)
                     if V.validator_for({"$schema": mid}) is not impl.DRAFTS[t]:
                         res.fail("selection:registration-disturbed", "registering %r disturbed the registration of %s" % (uri, t), case)
+            # the same version NAME registered again with another metaschema id, and a built-in version name
+            # taken by a user class with an id of its own: every id registered so far keeps selecting its class
+            uri2 = "http://example.org/house-%d-%d/second#" % (ctx.seed, n)
+            House2 = V.create(meta_schema={"$id": uri2, "type": "object"}, validators={kw: lambda v, x, i, s: None}, version="house%d" % n)
+            taken = ctx.r.choice(["draft3", "draft4", "draft6", "draft7"])
+            House3 = V.create(meta_schema={"$id": uri2.replace("second", "third")}, validators={}, version=taken)
+            with warnings.catch_warnings(record=True) as w3:
+                warnings.simplefilter("always")
+                sel = [(uri, House), (uri.rstrip("#"), House), (uri2, House2), (uri2.replace("second", "third"), House3)]
+                sel += [(impl.DRAFTS[t].ID_OF(impl.DRAFTS[t].META_SCHEMA), impl.DRAFTS[t]) for t in DRAFT_TAGS]
+                for u, want_cls in sel:
+                    got_cls = V.validator_for({"$schema": u})
+                    if got_cls is not want_cls:
+                        res.fail("selection:disturbed-by-reused-version-name",
+                                 "after registering version names again, %r selects %s instead of %s" % (u, got_cls.__name__, want_cls.__name__), case)
+                        break
+                if any("metaschema" in str(x.message) for x in w3):
+                    res.fail("selection:registered-id-warns", "a registered id was reported as unknown", case)
             got = outcome()
             if got != ("valid", False):
                 res.fail("validate-vs-selected:after-registration",
@@ -2197,7 +2435,7 @@ A_COMMON = ["A-json: instances and schemas are finite trees of JSON values with 
 plan("C01", c01, assumptions=A_COMMON + ["A-regex: re.search as oracle; patterns from the subset on which Python re and ECMA 262 agree",
                                          "the specification lean/JS/Spec/Valid.lean (validated against the official JSON-Schema-Test-Suite on every run)"],
      rule="the official suite (reference-free groups) against Spec.valid; then accepted reference-free schemas from each draft's vocabulary (nested applicators, keyword interactions) x 3 schema-directed instances; verdict compared with Spec.valid inside the domain (integer divisors <= 2^53, known type names, distinct keys); every case non-trivial")
-plan("C03", c03, assumptions=A_COMMON + ["A-regex: re.search as oracle", "A-url: urllib.parse functions as oracles"],
+plan("C03", c03_all, assumptions=A_COMMON + ["A-regex: re.search as oracle", "A-url: urllib.parse functions as oracles"],
      rule="schemas from the draft vocabulary, half of them with 1-2 keyword values replaced by random JSON (kept when check_schema accepts them), x schema-directed and random instances incl. huge numbers, x {no checker, draft checker}, x four entry points; non-trivial = accepted schema, distinct by canonical hash")
 plan("C04", c04, assumptions=A_COMMON + ["A-gc: CPython finalises an abandoned generator immediately"],
      rule="valid and malformed schemas x schema-directed instances x four drafts; relations between is_valid / iter_errors / validate / jsonschema.validate checked on the implementation; model compared on budgets none/1/2 and on the MOD channel")
